@@ -161,6 +161,22 @@ pub fn run(out: &mut Out, rng: &mut Rng, thorough: bool) {
 			}
 		}
 	}
+	// Wide documents: hundreds to thousands of collections in ONE document.
+	for n in [400usize, 600, 2000] {
+		let v = Val::Seq(
+			(0..n)
+				.map(|i| Val::Map(vec![(Val::Str("id".into()), Val::Int(i as i128)), (Val::Str("tags".into()), Val::Seq(vec![]))]))
+				.collect(),
+		);
+		for &a in &[Fmt::Json, Fmt::Msgpack, Fmt::Yaml] {
+			let Some(input) = spell(a, &v, &Spelling::plain()) else { continue };
+			for &b in &[Fmt::Json, Fmt::Msgpack, Fmt::Yaml] {
+				out.count("wide.tried");
+				fixed_point(out, rng, "wide", a, b, &input);
+				there_and_back(out, rng, &v, a, b, &input);
+			}
+		}
+	}
 	// TOML date-times (a TOML-only extension).
 	let toml_dt = b"d = 1979-05-27T07:32:00Z\nl = 1979-05-27T07:32:00\nday = 1979-05-27\nt = 07:32:00\n[s]\nx = [1979-05-27, 07:32:00]\n";
 	for &b in &ALL_FMTS {
